@@ -288,9 +288,58 @@ def pickles(descs: list[dict[str, Any]], built: list[Any], col: common.Collector
         col.case(common.stable_hash(["xproc", d]), True, {"graph": d, "cross_process": rr})
 
 
+def constant_pairs(col: common.Collector) -> None:
+    """Pairs of expressions that differ in ONE scalar constant which influences the
+    computed result (so they must be unequal), built through the public API."""
+    import numpy as np
+    import pytato as pt
+    x = pt.make_placeholder("x", (3,), np.float64)
+    c = pt.make_placeholder("c", (3,), np.bool_)
+    n = pt.make_placeholder("n", (3,), np.int64)
+    mk = {
+        "add": lambda k: x + k, "radd": lambda k: k + x, "mul": lambda k: x * k,
+        "truediv-left": lambda k: k / x, "where": lambda k: pt.where(c, x, k),
+        "full": lambda k: pt.full((3,), k, dtype=np.float64),
+        "maximum": lambda k: pt.maximum(x, k), "pow": lambda k: x ** k,
+    }
+    consts = {
+        "signed-zero": (0.0, -0.0),                 # x + 0.0 vs x + -0.0 differ at x = -0.0
+        "np-signed-zero": (np.float64(0.0), np.float64(-0.0)),
+        "one-two": (1.0, 2.0),
+        "tiny-difference": (1.0, 1.0 + 2 ** -52),
+        "large-ints": (2 ** 53, 2 ** 53 + 1),
+        "complex-zero-sign": (complex(0.0, 0.0), complex(0.0, -0.0)),
+    }
+    for cn, (a, b) in consts.items():
+        for on, f in mk.items():
+            try:
+                if cn == "large-ints":
+                    ea, eb = (n + a, n + b) if on == "add" else (None, None)
+                    if ea is None:
+                        continue
+                else:
+                    ea, eb = f(a), f(b)
+            except Exception:  # noqa: BLE001 -- constructor refuses the operand
+                continue
+            col.count("mon.constant_pairs")
+            try:
+                e1, e2 = ea == eb, eb == ea
+            except Exception as ex:  # noqa: BLE001
+                col.violation(f"C04:eq-raises:constant:{type(ex).__name__}", str(ex)[:120],
+                              {"constant": cn, "op": on})
+                continue
+            if e1 or e2:
+                col.violation(f"C04:eq-ignores-constant:{cn}",
+                              f"{on} with constant {a!r} compares equal to {on} with constant "
+                              f"{b!r} although the computed results differ",
+                              {"constant": cn, "op": on})
+
+
 def run_shard(shard: dict[str, Any], col: common.Collector) -> None:
     pool: list[Any] = []
     built = []
+    if shard.get("idx", 0) == 0:
+        constant_pairs(col)
     for desc in shard["descs"]:
         try:
             with common.time_limit(120):
